@@ -7,6 +7,7 @@ import (
 	"math"
 	"net"
 	"regexp"
+	"runtime"
 	"strconv"
 	"strings"
 	"testing"
@@ -211,7 +212,7 @@ var sweepBits32q = pbt.RegisterSweep(pbt.Sweep{Prop: "C15", Name: "bitutil-32-st
 func TestBitutilSweeps(t *testing.T) {
 	sweepBits16.Check(t, 1)
 	if pbt.Thorough() {
-		sweepBits32.Check(t, 2)
+		sweepBits32.Check(t, sweepWorkers())
 	} else {
 		sweepBits32q.Check(t, 4)
 	}
@@ -318,9 +319,19 @@ var sweepIPq = pbt.RegisterSweep(pbt.Sweep{Prop: "C15", Name: "iputil-sampled-ad
 	N:    1<<20 + 2<<16, Run: func(i uint64) (bool, error) { return checkIP(ipQuick(i)) },
 	Show: func(i uint64) interface{} { return net.IP(binary.BigEndian.AppendUint32(nil, uint32(ipQuick(i)))).String() }})
 
+// sweepWorkers: goroutines per shard process so that shards x workers is about the number of CPUs.
+func sweepWorkers() int {
+	_, n := pbt.Shard()
+	w := runtime.NumCPU() / n
+	if w < 1 {
+		w = 1
+	}
+	return w
+}
+
 func TestIPUtil(t *testing.T) {
 	if pbt.Thorough() {
-		sweepIP.Check(t, 2)
+		sweepIP.Check(t, sweepWorkers())
 	} else {
 		sweepIPq.Check(t, 4)
 	}
